@@ -273,6 +273,23 @@ def r4_cli_wiring(c, facts):
             c.ok(R, {'with_base argument derives from': k})
         else:
             c.bad(R, 'base-arg-not-from:' + k, 'the document given to with_base no longer derives from ' + k)
+    # a configured base is never skipped: once `config.base()` is Some, no successful path avoids with_base
+    some_edges = []
+    for b, blk in run.blocks():
+        sw = blk['term']
+        if sw['t'] != 'switch' or 'l' not in sw['discr']:
+            continue
+        dl = MF.slice_back(run, sw['discr']['l'], idx)
+        if any(n.endswith('Config::base') for n, _, _ in dl['calls']) and not any(P.strip(n).split('::')[-1] in ('is_valid', 'exists', 'is_file') for n, _, _ in dl['calls']):
+            ee = P.enum_edges(sw)
+            if '1' in ee:
+                some_edges.append(ee['1'])
+    if not some_edges:
+        c.bad(R, 'base-option-not-examined', 'run() no longer branches on whether a base is configured')
+    elif any(P.success_return_reachable(run, e, [bi]) for e in some_edges):
+        c.bad(R, 'configured-base-skipped', 'run() can succeed without calling with_base although a base is configured: a base that fails some extra test (not a regular file: a pipe, /dev/stdin) is silently replaced by the default document')
+    else:
+        c.ok(R, {'run': 'every successful path with a configured base passes with_base'})
     # the builder that receives the base is the one that is emitted
     sl2 = None
     for bi2, t2 in run.calls():
@@ -307,7 +324,38 @@ def r6_base_whole(c, facts):
         c.bad(R, 'open_file:reader-adapted:%s' % ','.join(limiting), 'open_file wraps the file in %s: a large base document is cut short and the sections after the cut are silently dropped' % (limiting or 'something that is not File::open'))
 
 
+def r7_base_readers(c, facts):
+    """what the program contributes (paths, schemas, parameters, headers) is computed without looking at the base: the
+    base is consulted in one place, where the frame is laid around the program's part"""
+    R = c.rule('C14.R7', 'BASE-READERS: Builder.base is written by with_base / new and read by into_openapi only')
+    from facts import operands_of_rvalue
+    readers, writers = {}, {}
+    for fn in sorted(facts.fns.values(), key=lambda f: f.qname):
+        if not fn.mir or fn.crate != 'oal_openapi':
+            continue
+        for b, blk in fn.blocks():
+            for st in blk['stmts']:
+                if st['s'] != 'assign':
+                    continue
+                rv = st['rv']
+                reads = [rv['place']] if rv['r'] in ('ref', 'rawptr', 'discr', 'len') else [o for o in operands_of_rvalue(rv) if 'l' in o]
+                for pl, tab in [(st['place'], writers)] + [(x, readers) for x in reads]:
+                    fp = [pr for pr in pl.get('proj', []) if pr['p'] == 'field']
+                    if fp and fp[0].get('name') == 'base' and 'Builder' in (fp[0].get('owner') or ''):
+                        if tab is writers and len(fp) > 1:
+                            tab = readers if False else writers
+                        tab.setdefault(facts.home(fn).qname, 0)
+                        tab[facts.home(fn).qname] += 1
+    c.floor(R, 'accesses to Builder.base', sum(readers.values()) + sum(writers.values()), 2)
+    extra = sorted(q for q in readers if not (P.name_is(q, 'Builder::into_openapi') or P.name_is(q, 'Builder::with_base') or P.name_is(q, 'Builder::new')))
+    if extra:
+        c.bad(R, 'base-read-in:%s' % ','.join(x.split('::')[-1] for x in extra), '%s read(s) the base description while building the program\'s part of the document: paths / components of the output then depend on what the base contains' % extra)
+    else:
+        c.ok(R, {'readers': sorted(readers), 'writers': sorted(writers)})
+
+
 def run(c, facts):
+    c.run(r7_base_readers, facts)
     c.run(r6_base_whole, facts)
     import c13
     c.run(lambda c: c13.r7_option_precedence(c, facts, rule='C14.R5'))
